@@ -612,6 +612,44 @@ def _check_estep(tr, kind, prev_model, obs, emb, z, aff, qf, sam, eps, op,
             return msg
         if not res[1]:
             tr.count('probe:inline_aligner_nonidentity')
+        # ... and it is the permutation the configured aligner computes on
+        # the Bayes posterior ("after the optional inline alignment"): an
+        # alignment that is skipped is not an alignment.  (What the aligner
+        # computes is C14/C16; here only that it is applied.)
+        # The aligner's decisions are discrete; feed it exactly the bits the
+        # implementation fed it: the reported (aligned) posterior with the
+        # found permutation undone.  Skipped when two class rows of a bin
+        # are closer than the matching tolerance (permutation ambiguous).
+        F_, K_, _ = exp.shape
+        for f in range(F_):
+            for i in range(K_):
+                for j in range(i + 1, K_):
+                    if np.max(np.abs(exp[f][i] - exp[f][j])) <= 1e-8:
+                        tr.count('probe:aligner_comparison_skipped_ambiguous')
+                        return None
+        pre = np.empty_like(aff)
+        for f, p in enumerate(res[0]):
+            pre[f][p] = aff[f]
+        al = catalogue.make_aligner(op['aligner'])
+        kft = np.transpose(pre, (1, 0, 2))
+        noise = np.random.RandomState(0).standard_normal(kft.shape)
+        variants = [kft, np.ascontiguousarray(kft), np.asfortranarray(kft),
+                    kft * (1 + 1e-13 * noise), kft * (1 - 1e-13 * noise)]
+        maps = [al.calculate_mapping(v) for v in variants]
+        if any(not np.array_equal(maps[0], m) for m in maps[1:]):
+            # tied scores: the aligner's decision depends on rounding /
+            # memory layout of its input, which the hook does not expose
+            tr.count('probe:aligner_comparison_skipped_tie')
+            return None
+        mapping = maps[0]
+        for f, p_found in enumerate(res[0]):
+            p_want = [int(x) for x in mapping[:, f]]
+            if list(p_found) != p_want:
+                return (f'bin {f}: the inline permutation aligner maps the '
+                        f'posterior with {p_want} but the E-step result '
+                        f'corresponds to {list(p_found)} (alignment skipped or '
+                        f'applied differently)')
+        tr.count('aligner_mapping_comparisons')
         return None
     d = float(np.max(np.abs(exp - aff)))
     if not d <= 1e-10:
